@@ -364,7 +364,7 @@ def enc20(v):
     if t is tuple:
         return {"t": [enc20(x) for x in v]}
     if t is set:
-        return {"S": [enc20(x) for x in v]}
+        return {"S": [enc20(x) for x in emission_order(v)]}
     if t is dict:
         return {"d": [[enc20(k), enc20(x)] for k, x in v.items()]}
     ln = None
@@ -375,6 +375,21 @@ def enc20(v):
 
 class NotModelled(Exception):
     pass
+
+
+def emission_order(members):
+    """The members of a set in the order `_value_to_cst` emits them: stably sorted by the source text of the rendered
+    member (the rule of the code; the printer is libcst's).  The model's `AVal.set xs` lists the members in this order
+    — the order is an input of the model, whose theorems hold for every order.  Members that cannot be rendered make
+    the set non-assertable (no object assertion is rendered): iteration order then."""
+    import libcst as cst
+    from pynguin.assertion.assertion_to_ast import _value_to_cst
+    members = list(members)
+    try:
+        printer = cst.Module(body=[])
+        return sorted(members, key=lambda x: printer.code_for_node(_value_to_cst(x)))
+    except Exception:  # noqa: BLE001 - an unrenderable member
+        return members
 
 
 # ---- history cases: statements, heap snapshots ------------------------------------------------
@@ -1077,7 +1092,7 @@ class C20(PropertyCheck):
         obs._check_value("var_0", v, 0, trace, depth=0, max_depth=0)
         assertions = list(trace.trace.get(0, []))
         for a in assertions:
-            # the observer deep-copies the value; a copied set may iterate in another order
+            # the observer deep-copies the value; a copied set may iterate in another order (ties of the sort key)
             if type(a).__name__ == "ObjectAssertion" and out["actual"] is not None:
                 out["actual"] = enc20(a.object)
         ns = self._namespace(v, case["ns"])
